@@ -382,6 +382,18 @@ func runCheck(id, tier string, seed int, overlay map[string][]byte, writeEvidenc
 		for _, r := range inv {
 			invs = append(invs, map[string]any{"name": r.Name, "items": r.Items, "violations": len(r.Violations) + len(r.Keyed)})
 		}
+		if len(samples) == 0 {
+			for _, r := range inv {
+				for i, it := range r.Items {
+					if i < 4 {
+						samples = append(samples, map[string]any{"inventory": r.Name, "item": it})
+					}
+				}
+			}
+		}
+		if samples == nil {
+			samples = []any{}
+		}
 		cov := map[string]any{
 			"obligations": nObl, "discharged": nDis,
 			"checker_cmd":               fmt.Sprintf("./bin/tibcvc check %s --tier %s", id, tier),
